@@ -9,7 +9,9 @@ ST = 'src/xalanc/XSLT/Stylesheet.cpp'
 FILE_BLK = Block(ST, r'^\s*if \(equals\(tempString, XPath::PSEUDONAME_TEXT\) == true\)', 'filing', after=r'^Stylesheet::addTemplate\(',
                  end=r'addToList\(m_\w+PatternTable\[tempString\], newMatchPat\);\s*\}\s*\}',
                  rules=[(r'equals\(tempString, XPath::PSEUDONAME_(\w+)\) == true', r'(g_kind == K_\1)', 6),
-                        (r'data\[i\]\.getTargetType\(\) == XPath::TargetData::(\w+)', r'(g_ttype == T_\1)', (4, 6)),
+                        (r'const XPath::TargetData::eTargetType\s+(\w+) =\s*data\[i\]\.getTargetType\(\);', r'const int \1 = g_ttype;', (0, 2)),
+                        (r'data\[i\]\.getTargetType\(\)', 'g_ttype', (0, 8)),
+                        (r'XPath::TargetData::(eElement|eAttribute|eAny)', r'T_\1', (4, 10)),
                         (r'addToList\(m_(\w+)PatternTable\[tempString\], newMatchPat\);', r'xv_add(L_\1_TABLE, newMatchPat);', (0, 2)),
                         (r'addToList\(m_(\w+)PatternList, newMatchPat\);', r'xv_add(L_\1, newMatchPat);', None)])
 TEMPLATE = r'''
